@@ -107,6 +107,32 @@ Qed.
 Lemma length_firstn_room v bs : length (firstn (room v) bs) = fit v bs.
 Proof. rewrite firstn_length. unfold fit. apply Nat.min_comm. Qed.
 
+(* the same, as a statement about the memory: the window [offset+initialized, +fit) now holds the
+   fitting prefix, every other byte is what it was *)
+Lemma extend_exact bs m v : view_ok (length m) v ->
+  exists m', extend m v bs =
+     (m', with_init v (v_init v + Nat.min (length bs) (room v)),
+      Ok (length bs <=? room v, if length bs <=? room v then length bs else S (room v)))
+   /\ length m' = length m
+   /\ slice m' (v_off v + v_init v) (Nat.min (length bs) (room v)) = Some (firstn (room v) bs)
+   /\ forall j, j < v_off v + v_init v \/ v_off v + v_init v + Nat.min (length bs) (room v) <= j ->
+        nth_error m' j = nth_error m j.
+Proof.
+  intros Hok. destruct (extend_spec bs m v Hok) as [m' [E [L N]]]. exists m'. fold (fit v bs).
+  split; [exact E|]. split; [exact L|]. destruct Hok as [Hi Ht]. pose proof (fit_le_room v bs) as Hf.
+  unfold room in Hf. split.
+  - apply slice_eq.
+    + rewrite L. lia.
+    + apply length_firstn_room.
+    + intros i Hi'. rewrite N.
+      destruct (Nat.leb_spec (v_off v + v_init v) (v_off v + v_init v + i)),
+               (Nat.ltb_spec (v_off v + v_init v + i) (v_off v + v_init v + fit v bs)); cbn [andb]; try lia.
+      rewrite nth_error_firstn_lt by (unfold room; lia). f_equal. lia.
+  - intros j Hj. rewrite N.
+    destruct (Nat.leb_spec (v_off v + v_init v) j),
+             (Nat.ltb_spec j (v_off v + v_init v + fit v bs)); cbn [andb]; try lia; reflexivity.
+Qed.
+
 (* ---------- the other primitives ---------- *)
 
 Lemma advance_spec v n total : view_ok total v ->
@@ -181,3 +207,14 @@ Qed.
 Lemma child_ok v c total : view_ok total v -> v_off c = v_off v + v_init v -> v_init c = 0 ->
   v_cap c <= room v -> view_ok total c.
 Proof. unfold view_ok, room. lia. Qed.
+
+(* acc_ok as a computable equation *)
+Lemma acc_ok_of_slice m v acc : slice m (v_off v) (v_init v) = Some acc -> acc_ok m v acc.
+Proof.
+  intros H. destruct (slice_inv _ _ _ _ H) as [_ [L N]]. split; [exact L|].
+  intros i Hi. symmetry. apply N, Hi.
+Qed.
+
+Lemma slice_of_acc_ok m v acc : v_off v + v_init v <= length m -> acc_ok m v acc ->
+  slice m (v_off v) (v_init v) = Some acc.
+Proof. intros Hl [L N]. apply slice_eq; assumption. Qed.
